@@ -12,6 +12,7 @@ CONSTANTS
   Defect_StopHandshake = FALSE
   Defect_HeartbeatStart = FALSE
   Defect_LatePool = FALSE
+  Defect_ReconnectWindow = FALSE
   Defect_ReconnectInline = FALSE
   Mut = "none"
 ACTION_CONSTRAINT EmitEdge
